@@ -3,7 +3,10 @@
 Theorems: lean/Tranp/Props/C01.lean over lean/Tranp/Model/Emit.lean (+ Generated/CppTemplates.lean from translate/gen_cpp_templates.py).
 Tie: correspondence streams `emit` (random operator trees, every ordered operator pair x side forced, real Py2Cpp `return` text vs model tokens),
 `cpptable` (g++ grouping), `sem` (CPython / g++ values on ints, bools, floats), `stmt` (statements core: real body lines, CPython, g++).
-Search (the property's own oracle, no model): harness/gen_prog.py programs -> real transpile -> g++ -std=c++20 -> run -> CPython (harness/cxx.py).
+Search (the property's own oracle, no model): harness/gen_prog.py programs -> real transpile -> g++ -std=c++20 -> run -> CPython (harness/cxx.py):
+corpus witnesses, probe programs (one known defect each, own key), idiom families (must agree), generated programs selected from a pool so that every
+construct feature occurs (select_cover), every operator pair. The search runs in a forked child from the start (start_search) and overlaps the proof build and
+the correspondence streams. Limits that decide a verdict are CPU time (cxx.run_limited, ITIMER_PROF); wall deadlines only skip work, and every skip is counted.
 """
 from __future__ import annotations
 
